@@ -4,6 +4,7 @@ Model: `coreResponse` (first block, caching) and `coreRequest`/`handleBlock2`
 (follow-up blocks served from the cache) in Model/Block.lean.
 -/
 import CoapLite.Lemmas.BlockTransfer
+import CoapLite.Lemmas.Download
 
 namespace CoapLite.C08
 open CoapLite Block
@@ -96,6 +97,39 @@ theorem follow_up (req : Request) (resp : Packet) (st : BlockState) (b2 : BlockV
       (∃ bs, ({ b2 with more := more } : BlockValue).enc = .ok bs ∧ resp'.getOption block2Num = some [bs]) ∧
       (∀ n, n ≠ block2Num → (cached.getOption n).isSome → resp'.getOption n = cached.getOption n) :=
   follow_up_served req resp st b2 cached chunk more M size hb1 hsz hn hb hc hr hs hcs hck hch
+
+/-- END TO END, the tail of a transfer: a client that fetches blocks `k, k+1, …` of a cached
+response with one follow-up request per block (`IsFollowUp`: a Block2 option naming the block, no
+Block1 option, a prepared reply; tokens, message ids and other options are arbitrary), the last
+request naming the body's last block, gets – concatenated – exactly the rest of the body; every
+request is answered from the cache without consulting the application, and the final block
+releases the cache entry. By induction over the requests, for every body, size and block count. -/
+theorem follow_ups_reassemble (M : Nat) (cached : Packet) (szx : Nat)
+    (hcs : cached.options.Sorted) (hck : ∀ kv ∈ cached.options, kv.1 ≤ 65535)
+    (reqs : List Request) (k : Nat) (st : BlockState)
+    (hst : st.cachedResponse = some cached)
+    (hfu : ∀ i (h : i < reqs.length), IsFollowUp M reqs[i] (k + i) szx)
+    (hne : reqs ≠ [])
+    (hlast : (k + reqs.length - 1) * 2 ^ (szx + 4) < cached.payload.length)
+    (hcover : cached.payload.length ≤ (k + reqs.length) * 2 ^ (szx + 4)) :
+    ((fetchAll M reqs st).1.flatMap (·.1)) = cached.payload.drop (k * 2 ^ (szx + 4)) ∧
+    (∀ o ∈ (fetchAll M reqs st).1, o.2 = .ok true) ∧
+    (fetchAll M reqs st).2.cachedResponse = none :=
+  download_tail M cached szx hcs hck reqs k st hst hfu hne hlast hcover
+
+/-- … and with block 0 (the first `size` bytes, served with the application's reply, `first_block`
+/ `served_block`) the client holds the whole body, byte for byte -/
+theorem whole_body (M : Nat) (cached : Packet) (szx : Nat)
+    (hcs : cached.options.Sorted) (hck : ∀ kv ∈ cached.options, kv.1 ≤ 65535)
+    (reqs : List Request) (st : BlockState)
+    (hst : st.cachedResponse = some cached)
+    (hfu : ∀ i (h : i < reqs.length), IsFollowUp M reqs[i] (1 + i) szx)
+    (hne : reqs ≠ [])
+    (hlast : (1 + reqs.length - 1) * 2 ^ (szx + 4) < cached.payload.length)
+    (hcover : cached.payload.length ≤ (1 + reqs.length) * 2 ^ (szx + 4)) :
+    cached.payload.take (2 ^ (szx + 4)) ++ ((fetchAll M reqs st).1.flatMap (·.1)) = cached.payload := by
+  rw [(download_tail M cached szx hcs hck reqs 1 st hst hfu hne hlast hcover).1, Nat.one_mul]
+  exact List.take_append_drop _ _
 
 /-- … so the next request reaches the application again -/
 theorem after_release_passes (req : Request) (st : BlockState)
